@@ -4,6 +4,8 @@ from . import kinds
 
 
 def run(cx):
+    from ..rules import exits_of
+    exits_of(cx, 'EXITS', ['io.FCSData.__getitem__', 'io.FCSData.__setitem__', 'io.FCSData._name_to_index'])
     A, mutable = R.attrset(cx)
     R.getitem_branches(cx)
     R.name_to_index_shape(cx)
